@@ -936,6 +936,19 @@ fn e2e_case() -> impl Strategy<Value = E2eCase> {
             // the second receiver is far away: a surface report decoded against the wrong receiver lands in another zone
             refs.push(((lat + 7.0).clamp(-75.0, 75.0), wrap180(p.lon + dlon)));
         }
+        // with two receivers the scenario always has the interesting structure: an airborne ADS-B aircraft heard by
+        // both receivers through the first one's zone, and (if there is a second aircraft) ground traffic that only the
+        // second receiver hears
+        if refs.len() == 2 {
+            aircraft[0].surface = false;
+            aircraft[0].df18 = false;
+            aircraft[0].both = true;
+            aircraft[0].source = 0;
+            if aircraft.len() >= 2 {
+                aircraft[1].surface = true;
+                aircraft[1].source = 1;
+            }
+        }
         // addresses of one family: all bits shared but a few (low nibble, middle byte, high byte), so that a state keyed
         // by part of the address mixes the aircraft up
         let base = aircraft[0].icao & 0xfffff0;
@@ -1025,7 +1038,7 @@ pub fn run(ctx: &Ctx) {
     // jet1090's own loop (anchor crates/jet1090/src/main.rs), end to end over TCP
     match crate::e2e::Env::from_env() {
         Some(env) => {
-            let n = ctx.tier.pick(48u32, 800u32);
+            let n = ctx.tier.pick(64u32, 800u32);
             (0..shards).into_par_iter().for_each(|s| {
                 vcore::ev::run_prop_shrink(ctx, &format!("e2e-{s}"), n / shards, 16, e2e_case(), |c| check_e2e(ctx, &env, c, &format!("c06-{s}")));
             });
